@@ -51,6 +51,7 @@ package olareg
 //@   ensures [digest-header]{C01} w.status == 200 || w.status == 206 ==> digestOK(arg) && header(w, types.HeaderDockerDigest) == arg
 //@   -- the bytes served come from the reader the store handed out for exactly the digest that is reported
 //@   assert [served-is-reported-digest]{C01} before "http.ServeContent(": rdr.of == header(w, types.HeaderDockerDigest) && rdr.of == arg
+//@   ensures [success-serves-the-stored-blob]{C02} (w.status == 200 || w.status == 206) ==> served(w) && servedOf(w) == arg
 
 //@ func (s *Server) blobDelete$1(w http.ResponseWriter, r *http.Request)
 //@   props C15 C14
@@ -83,6 +84,9 @@ package olareg
 //@   assert [served-is-reported-digest]{C01} before "http.ServeContent(": rdr.of == header(w, types.HeaderDockerDigest) && rdr.of == desc.Digest
 //@   assert [by-digest-serves-that-digest]{C01} before "http.ServeContent(": !re_RefTagRE(arg) && reqheader(r, "Accept") == "" ==> rdr.of == arg
 //@   assert [media-type-reported]{C02} before "http.ServeContent(": header(w, "Content-Type") == desc.MediaType
+//@   -- a successful answer (also to HEAD) is the stored blob as http.ServeContent serves it - body, length and ranges come
+//@   -- from the blob's own bytes, never from what an index says about it (C02)
+//@   ensures [success-serves-the-stored-blob]{C02} (w.status == 200 || w.status == 206) ==> served(w) && servedOf(w) == header(w, types.HeaderDockerDigest)
 //@   ensures [status-class] w.status == 200 || w.status == 206 || w.status == 304 || w.status == 412 || w.status == 416 || w.status == 400 || w.status == 404 || w.status == 500
 //@   ensures [no-5xx-without-fault] w.status >= 500 ==> fault()
 
